@@ -37,8 +37,13 @@ class LazySrc:
     def __aiter__(self):
         return self
 
+    fail_next = None        # set to an exception: the next pull raises it once (a transient error), nothing is consumed
+
     async def __anext__(self):
         self.tr.samples.append(self.tr.alive)
+        if self.fail_next is not None:
+            e, self.fail_next = self.fail_next, None
+            raise e
         if self.i >= self.n:
             raise StopAsyncIteration
         self.i += 1
@@ -100,7 +105,8 @@ PER_SOURCE = 3      # loop variable, a head / previous item, an item in flight
 def tee_pattern(rng, N, nchild):
     """random child progress with early closes; returns violations of  alive <= lead + constant"""
     tr = Tracker()
-    t = a.tee(LazySrc(tr, N), nchild)
+    src = LazySrc(tr, N)
+    t = a.tee(src, nchild)
     kids = list(t)
     pos = [0] * nchild
     live = [True] * nchild
@@ -121,6 +127,14 @@ def tee_pattern(rng, N, nchild):
             if r < 0.02:
                 await kids[i].aclose()
                 live[i] = False
+            elif r < 0.035 and sum(live) > 1 and pos[i] == builtins.max(pos):
+                # a child that leads is unwound by a transient error of the source: it is finished from then on
+                src.fail_next = KeyError("transient")
+                try:
+                    await kids[i].__anext__()
+                    raise AssertionError("the transient source error did not reach the consumer")
+                except KeyError:
+                    live[i] = False
             else:
                 # bursts let one child run ahead
                 for _ in range(rng.choice([1, 1, 1, 5, 20])):
